@@ -100,8 +100,19 @@ class Check:
     def finish(self):
         known = load_known()
         mine = [k for k in known if k.get("property") == self.pid or self.pid in k.get("properties", [])]
-        open_keys = {k["key"]: k for k in mine if k.get("status", "open") == "open"}
-        fixed_keys = {k["key"]: k for k in mine if str(k.get("status", "")).startswith("fixed")}
+        def keys_of(k):
+            ks = {k["key"], "%s:%s" % (self.pid, k["key"])}
+            ks.update(k.get("keys", []))
+            return ks
+
+        open_keys = {}
+        fixed_keys = {}
+        for k in mine:
+            for kk in keys_of(k):
+                if k.get("status", "open") == "open":
+                    open_keys[kk] = k
+                elif str(k.get("status", "")).startswith("fixed"):
+                    fixed_keys[kk] = k
         lines = []
         violations = []
         matched = []
@@ -113,7 +124,8 @@ class Check:
                     lines.append("KNOWN-FINDING: property=%s %s [%s]" % (self.pid, open_keys[o.key]["what_fails"], o.key))
                 else:
                     violations.append(o)
-        stale = [k for k in open_keys if k not in matched]
+        matched_ids = {id(open_keys[m]) for m in matched}
+        stale = sorted({k["key"] for k in open_keys.values() if id(k) not in matched_ids})
         vdir = os.path.join(EVIDENCE_DIR, "violations")
         replay_paths = []
         if violations:
